@@ -1,10 +1,13 @@
 package c12
 
 import (
+	"bufio"
 	"bytes"
 	"encoding/json"
 	"fmt"
+	"io"
 	"net"
+	"net/http"
 	"os"
 	"path/filepath"
 	"strings"
@@ -80,8 +83,17 @@ func concurrentChild(args []string) int {
 		}
 	}
 	const clients = 12
-	for r := 0; r < j.Rounds; r++ {
+	// after the ordinary rounds a few more on the gzip-only site in which
+	// every client accepts gzip and the bodies do not compress (pseudo-random
+	// bytes): the compressed stream of the slow reader is then as large as the
+	// body, and the end of its stream is written while peers come and go
+	gzRounds := j.Rounds/3 + 2
+	for r := 0; r < j.Rounds+gzRounds; r++ {
 		s := sites[r%len(sites)]
+		gzMode := r >= j.Rounds
+		if gzMode {
+			s = sites[4]
+		}
 		var wg sync.WaitGroup
 		for cl := 0; cl < clients; cl++ {
 			wg.Add(1)
@@ -98,9 +110,23 @@ func concurrentChild(args []string) int {
 					rep = (6 << 20) / len(unit) // larger than what the kernel's socket buffers absorb (4 MiB send buffer limit on loopback) while the client does not read
 				}
 				sp := probe.Spec{Code: 200, Text: unit, Rep: rep, Hdr: [][2]string{{"Content-Type", "text/html; charset=utf-8"}}}
+				if gzMode {
+					n := rep * len(unit)
+					sp = probe.Spec{Code: 200, Tag: uint64(r*100 + cl + 1), Hdr: [][2]string{{"Content-Type", "text/html; charset=utf-8"}}}
+					for off := 0; off < n; off += 64 << 10 {
+						w := 64 << 10
+						if off+w > n {
+							w = n - off
+						}
+						sp.Writes = append(sp.Writes, probe.Write{N: w})
+					}
+					mu.Lock()
+					out.Counters["concurrent_incompressible_gzip_requests"]++
+					mu.Unlock()
+				}
 				want := sp.Body()
 				hdr := []string{"X-Verif-Probe: " + sp.Encode(), "Connection: close"}
-				if cl%2 == 1 {
+				if cl%2 == 1 || gzMode {
 					hdr = append(hdr, "Accept-Encoding: gzip")
 				}
 				k, err := lib.Dial(addr)
@@ -109,7 +135,7 @@ func concurrentChild(args []string) int {
 				}
 				defer k.Close()
 				k.Timeout = 120 * time.Second
-				slow := cl == 0
+				slow := cl == 0 || (gzMode && cl%3 == 0)
 				if slow {
 					if tc, ok := k.Raw().(*net.TCPConn); ok {
 						tc.SetReadBuffer(64 << 10)
@@ -117,10 +143,37 @@ func concurrentChild(args []string) int {
 				}
 				raw := lib.BuildReq("GET", "/p/x.html", s.host(), nil, hdr...)
 				var resp *lib.Resp
-				if slow {
+				if slow && gzMode {
+					// reads a little at a time all the way through: the server is held
+					// up in every write of this response, the last ones included
+					k.Raw().Write(raw)
+					k.Raw().SetDeadline(time.Now().Add(120 * time.Second))
+					resp = &lib.Resp{}
+					hr, err := http.ReadResponse(bufio.NewReaderSize(trickle{k.Raw()}, 16<<10), nil)
+					if err != nil {
+						resp.Err = err
+					} else {
+						resp.Status, resp.Header = hr.StatusCode, hr.Header
+						resp.Body, resp.Err = io.ReadAll(hr.Body)
+						hr.Body.Close()
+					}
+				} else if slow {
 					k.Raw().Write(raw)
 					time.Sleep(520 * time.Millisecond) // the server is blocked mid-way through sending this response meanwhile
 					resp = k.Do("GET", nil)
+				} else if gzMode {
+					// peers come and go while the slow responses are being finished
+					time.Sleep(time.Duration(100+45*(cl%7)) * time.Millisecond)
+					for i := 0; i < 6; i++ {
+						resp = lib.Once(addr, "GET", "/p/x.html", s.host(), hdr...)
+						if resp.Err != nil || resp.Status != 200 {
+							break
+						}
+						if d, err := lib.Decode(resp.Header.Get("Content-Encoding"), resp.Body); err != nil || !bytes.Equal(d, want) {
+							break
+						}
+						time.Sleep(60 * time.Millisecond)
+					}
 				} else {
 					// the peers arrive in two waves while the slow reader's response is
 					// stuck in the server's send path
@@ -210,6 +263,17 @@ func concurrentChild(args []string) int {
 	lib.StopWait(inst)
 	json.NewEncoder(os.Stdout).Encode(&out)
 	return 0
+}
+
+// trickle reads at most 16 KiB every 2 ms.
+type trickle struct{ c net.Conn }
+
+func (t trickle) Read(p []byte) (int, error) {
+	if len(p) > 16<<10 {
+		p = p[:16<<10]
+	}
+	time.Sleep(2 * time.Millisecond)
+	return t.c.Read(p)
 }
 
 func min(a, b int) int {
